@@ -1,6 +1,7 @@
 package psim
 
 import (
+	"path/filepath"
 	"fmt"
 	"os"
 	"path"
@@ -80,6 +81,27 @@ func checkResume(r *Run, twinOuts string, spec []CrashSpec) []Violation {
 			add("resume-failed-after-interrupted-invoke", fmt.Sprintf("after %s (before the new pipestance's top-level metadata was completely written) the restarted mrp ended as %q (exit codes %v): %s",
 				desc, cls, r.ExitCodes, lastLines(r.outBuf.String(), 6)))
 			return out
+		}
+		if r.Cfg.JobMode != "" && r.Cfg.JobMode != "local" {
+			// cluster mode: a submission interrupted between the removal of the
+			// _queued_locally sentinel and the recording of the job id leaves a job
+			// which is "queued" for ever (nothing to ask the queue about)
+			stuck := ""
+			filepath.Walk(r.PsDir, func(p string, info os.FileInfo, err error) error {
+				if err == nil && info != nil && !info.IsDir() && info.Name() == "_jobscript" {
+					d := path.Dir(p)
+					has := func(n string) bool { _, e := os.Stat(path.Join(d, n)); return e == nil }
+					if !has("_jobid") && !has("_queued_locally") && !has("_complete") && !has("_errors") && !has("_log") {
+						stuck = strings.TrimPrefix(d, r.PsDir+"/")
+					}
+				}
+				return nil
+			})
+			if stuck != "" {
+				add("cluster-submission-interrupted-before-job-id", fmt.Sprintf("after %s the restarted pipestance never finishes: %s has a job script but no job id, no sentinel and no sign of life (ended as %q)",
+					desc, stuck, cls))
+				return out
+			}
 		}
 		add("resume-did-not-complete", fmt.Sprintf("after %s the restarted pipestance ended as %q (exit codes %v): %s",
 			desc, cls, r.ExitCodes, lastLines(r.outBuf.String(), 10)))
@@ -226,8 +248,18 @@ func c05Case(c *Ctx) {
 		fcfg.MaxChunks = 9 + c.Plan.Draw(4)
 	}
 	flags := append(baseFlags(c.Plan), "--vdrmode="+vdr)
+	// some bases run in cluster mode: the jobs are not children of mrp, survive its
+	// death and keep running (and finishing) while it is down and after its restart
+	clusterMode := c.Plan.Draw(6) == 0 || os.Getenv("VERIF_C05_CLUSTER") != ""
+	if clusterMode {
+		flags = append(flags, fmt.Sprintf("--maxjobs=%d", 1+c.Plan.Draw(4)))
+		c.Res.Probes["cluster-mode-bases"]++
+	}
 	mk := func() *RunCfg {
 		cfg := &RunCfg{Prog: prog, FCfg: fcfg, MaxSteps: 80000, Flags: flags}
+		if clusterMode {
+			cfg.JobMode = "sge"
+		}
 		return cfg
 	}
 	base := mk()
